@@ -35,11 +35,26 @@ def log(*a):
 
 # ---------------------------------------------------------------------------- TLC
 
+_JTMP = []
+
+
+def _jtmp():
+    """TLC leaves an empty tlc-<n> directory in java.io.tmpdir per run: keep them under .work and remove them at exit."""
+    if not _JTMP:
+        import atexit
+        import shutil
+        d = os.path.join(ROOT, ".work", "jtmp-%d" % os.getpid())
+        os.makedirs(d, exist_ok=True)
+        _JTMP.append(d)
+        atexit.register(shutil.rmtree, d, True)
+    return "-Djava.io.tmpdir=" + _JTMP[0]
+
+
 def java_cmd(fast, xmx="3g"):
     if fast:
-        return ["java", "-XX:+UseSerialGC", "-XX:CICompilerCount=2", "-XX:TieredStopAtLevel=1",
+        return ["java", _jtmp(), "-XX:+UseSerialGC", "-XX:CICompilerCount=2", "-XX:TieredStopAtLevel=1",
                 "-Xmx" + xmx, "-Xss16m", "-cp", JAR, "tlc2.TLC"]
-    return ["java", "-XX:+UseParallelGC", "-XX:ParallelGCThreads=4", "-Xmx" + xmx, "-Xss16m",
+    return ["java", _jtmp(), "-XX:+UseParallelGC", "-XX:ParallelGCThreads=4", "-Xmx" + xmx, "-Xss16m",
             "-cp", JAR, "tlc2.TLC"]
 
 
@@ -375,6 +390,11 @@ def run_check(prop, tier, seed, replay_file=None):
     drv = importlib.import_module("harness.drivers." + prop.lower())
     work = os.path.join(WORK, "%s-%d" % (prop, os.getpid()))
     shutil.rmtree(work, ignore_errors=True)
+    # scratch left by a run that was killed (its process is gone)
+    for d in (os.listdir(WORK) if os.path.isdir(WORK) else []):
+        m = re.match(r".*-(\d+)$", d)
+        if m and not os.path.exists("/proc/%s" % m.group(1)):
+            shutil.rmtree(os.path.join(WORK, d), ignore_errors=True)
     os.makedirs(work)
     t0 = time.time()
     stats = new_stats()
